@@ -1,4 +1,5 @@
 #include "context.h"
+#include <stdexcept>
 #include "item.h"
 
 namespace ratio
@@ -13,9 +14,24 @@ namespace ratio
     }
 
     context::operator expr() const { return expr(static_cast<item *>(ptr)); }
-    CORE_EXPORT context::operator bool_expr() const { return bool_expr(static_cast<bool_item *>(ptr)); }
-    CORE_EXPORT context::operator arith_expr() const { return arith_expr(static_cast<arith_item *>(ptr)); }
-    CORE_EXPORT context::operator string_expr() const { return string_expr(static_cast<string_item *>(ptr)); }
+    CORE_EXPORT context::operator bool_expr() const
+    {
+        if (bool_item *b_itm = dynamic_cast<bool_item *>(ptr); b_itm || !ptr)
+            return bool_expr(b_itm);
+        throw std::invalid_argument("type mismatch: a boolean expression was expected..");
+    }
+    CORE_EXPORT context::operator arith_expr() const
+    {
+        if (arith_item *a_itm = dynamic_cast<arith_item *>(ptr); a_itm || !ptr)
+            return arith_expr(a_itm);
+        throw std::invalid_argument("type mismatch: an arithmetic expression was expected..");
+    }
+    CORE_EXPORT context::operator string_expr() const
+    {
+        if (string_item *s_itm = dynamic_cast<string_item *>(ptr); s_itm || !ptr)
+            return string_expr(s_itm);
+        throw std::invalid_argument("type mismatch: a string expression was expected..");
+    }
     CORE_EXPORT context::operator var_expr() const { return var_expr(static_cast<var_item *>(ptr)); }
 
     expr::expr(item *const ptr) : context(ptr) {}
